@@ -12,6 +12,18 @@ From CGgen Require Import Consts.
 From CG Require Import Model.Dot.
 From CG Require Import Spec.DotRead.
 From CG Require Import Spec.DotSpec.
+From CG Require Import Spec.Mistakes.
+From CG Require Import Spec.Warnings.
+From CG Require Import Model.Minimize.
+From CG Require Import Spec.DfaEquiv.
+From CG Require Import Spec.MinimizeSpec.
+From CG Require Import Model.Regex.
+From CG Require Import Model.Subset.
+From CG Require Import Spec.Lang.
+From CG Require Import Model.Lexer.
+From CG Require Import Model.Parser.
+From CG Require Import Spec.Printer.
+From CG Require Import Model.Ambiguity.
 (* add new Require lines above this line *)
 Require Import ExtrOcamlBasic ExtrOcamlString.
 Extraction Language OCaml.
@@ -49,5 +61,41 @@ Separate Extraction
   DotSpec.compare
   DotSpec.gdiff_ok
   DotSpec.regex_missing
+  Mistakes.present
+  Mistakes.specs_have_command_plain
+  Warnings.unused_plain
+  Warnings.unused_for_shell
+  Warnings.undefined_reported
+  Minimize.minimize
+  Minimize.do_minimize
+  DfaEquiv.validate
+  DfaEquiv.equiv_dec
+  DfaEquiv.trim_dec
+  DfaEquiv.distinct_dec
+  DfaEquiv.states
+  MinimizeSpec.wfb
+  Regex.from_valid_expr
+  Regex.from_expr
+  Regex.regex_first
+  Regex.regex_follow
+  Regex.arena_consistent
+  Regex.unfold_arena
+  Subset.dfa_from_regex
+  Subset.valid_submap
+  Subset.pick_first
+  Subset.pick_last
+  Subset.pick_script
+  Lang.equiv_dfa_expr
+  Lang.equiv_wdfa_expr
+  Lang.levels_ok
+  Parser.parse
+  Parser.parse_with
+  Parser.repaired
+  Parser.pinned
+  Printer.text
+  Printer.located_with
+  Printer.wf_stmt
+  Printer.erase_grammar
+  Ambiguity.check_ambiguity_best_effort
   (* add new roots above this line *)
   Prelude.pow2.
